@@ -394,6 +394,50 @@ theorem ipUn_canonical (L : Loop) (hL : L.canonical) (hip : L.inPlace = true) (h
   · intro i hi cur
     simp [rd_i cur i hi]
 
+-- scalar operand of another arithmetic type ---------------------------------------------------------------
+
+/-- whatever the declared parameter type: the conversion happens once (at the call), all lanes see the same argument -/
+theorem binVSx_spec {σ : Type} (L : Loop) (hL : L.canonical) (hip : L.inPlace = false) (hargs : L.args = [.vec 0 .i, .scalar])
+    (f : α → Simd.Arg σ α → Option γ) (toLane : σ → Option α) (truth : σ → Option Bool) (a : Vec α S) (s : σ) :
+    Simd.binVSx L f toLane truth a s =
+      (Simd.passScalar L.scalarTy toLane truth s).bind fun arg => allSome (a.map fun x => f x arg) := by
+  unfold Simd.binVSx
+  cases Simd.passScalar L.scalarTy toLane truth s with
+  | none => rfl
+  | some arg => exact binVS_canonical L hL hip hargs f a arg
+
+theorem binSVx_spec {σ : Type} (L : Loop) (hL : L.canonical) (hip : L.inPlace = false) (hargs : L.args = [.scalar, .vec 0 .i])
+    (f : Simd.Arg σ α → α → Option γ) (toLane : σ → Option α) (truth : σ → Option Bool) (s : σ) (b : Vec α S) :
+    Simd.binSVx L f toLane truth s b =
+      (Simd.passScalar L.scalarTy toLane truth s).bind fun arg => allSome (b.map fun y => f arg y) := by
+  unfold Simd.binSVx
+  cases Simd.passScalar L.scalarTy toLane truth s with
+  | none => rfl
+  | some arg => exact binSV_canonical L hL hip hargs f arg b
+
+/-- an overload that is generic in the type of its scalar operand applies the mixed-type scalar operation in every lane -/
+theorem binVSx_own {σ : Type} (L : Loop) (hL : L.canonical) (hip : L.inPlace = false) (hargs : L.args = [.vec 0 .i, .scalar])
+    (hown : L.scalarTy = .own) (f : α → Simd.Arg σ α → Option γ) (toLane : σ → Option α) (truth : σ → Option Bool)
+    (a : Vec α S) (s : σ) : LanewiseBinVS (Simd.binVSx L f toLane truth a s) (fun x t => f x (.own t)) a s := by
+  unfold LanewiseBinVS
+  rw [binVSx_spec L hL hip hargs, hown]
+  rfl
+
+theorem binSVx_own {σ : Type} (L : Loop) (hL : L.canonical) (hip : L.inPlace = false) (hargs : L.args = [.scalar, .vec 0 .i])
+    (hown : L.scalarTy = .own) (f : Simd.Arg σ α → α → Option γ) (toLane : σ → Option α) (truth : σ → Option Bool)
+    (s : σ) (b : Vec α S) : LanewiseBinSV (Simd.binSVx L f toLane truth s b) (fun t y => f (.own t) y) s b := by
+  unfold LanewiseBinSV
+  rw [binSVx_spec L hL hip hargs, hown]
+  rfl
+
+/-- a scalar operand declared `Simd::Mask<T>` reaches every lane as its truth value -/
+theorem binSVx_mask {σ : Type} (L : Loop) (hL : L.canonical) (hip : L.inPlace = false) (hargs : L.args = [.scalar, .vec 0 .i])
+    (hm : L.scalarTy = .laneMask) (f : Simd.Arg σ α → α → Option γ) (toLane : σ → Option α) (truth : σ → Option Bool)
+    (s : σ) (b : Vec α S) :
+    Simd.binSVx L f toLane truth s b = (truth s).bind fun m => allSome (b.map fun y => f (.mask m) y) := by
+  rw [binSVx_spec L hL hip hargs, hm]
+  cases h : truth s <;> simp [Simd.passScalar, h]
+
 end Lanewise
 
 -- ------------------------------------------------------------------------------------------------
@@ -455,6 +499,26 @@ theorem lanewise_logicVS (sem : BoolOp → α → α → Option Bool) (op : Bool
 theorem lanewise_logicSV (sem : BoolOp → α → α → Option Bool) (op : BoolOp) (s : α) (b : Vec α S) :
     LanewiseBinSV (Simd.logicSV sem op s b) (sem op) s b :=
   binSV_canonical loop_BOOLEAN_OP_sv (by decide) (by decide) (by decide) _ s b
+theorem lanewise_compareVSx {σ : Type} (sem : CmpOp → α → Simd.Arg σ α → Option Bool) (toLane : σ → Option α)
+    (truth : σ → Option Bool) (op : CmpOp) (a : Vec α S) (s : σ) :
+    LanewiseBinVS (Simd.compareVSx sem toLane truth op a s) (fun x t => sem op x (.own t)) a s :=
+  binVSx_own loop_COMPARISON_OP_vs (by decide) (by decide) (by decide) (by decide) _ toLane truth a s
+theorem lanewise_compareSVx {σ : Type} (sem : CmpOp → Simd.Arg σ α → α → Option Bool) (toLane : σ → Option α)
+    (truth : σ → Option Bool) (op : CmpOp) (s : σ) (b : Vec α S) :
+    LanewiseBinSV (Simd.compareSVx sem toLane truth op s b) (fun t y => sem op (.own t) y) s b :=
+  binSVx_own loop_COMPARISON_OP_sv (by decide) (by decide) (by decide) (by decide) _ toLane truth s b
+theorem lanewise_logicVSx {σ : Type} (sem : BoolOp → α → Simd.Arg σ α → Option Bool) (toLane : σ → Option α)
+    (truth : σ → Option Bool) (op : BoolOp) (a : Vec α S) (s : σ) :
+    LanewiseBinVS (Simd.logicVSx sem toLane truth op a s) (fun x t => sem op x (.own t)) a s :=
+  binVSx_own loop_BOOLEAN_OP_vs (by decide) (by decide) (by decide) (by decide) _ toLane truth a s
+theorem lanewise_logicSVx {σ : Type} (sem : BoolOp → Simd.Arg σ α → α → Option Bool) (toLane : σ → Option α)
+    (truth : σ → Option Bool) (op : BoolOp) (s : σ) (b : Vec α S) :
+    Simd.logicSVx sem toLane truth op s b = (truth s).bind fun m => allSome (b.map fun y => sem op (.mask m) y) :=
+  binSVx_mask loop_BOOLEAN_OP_sv (by decide) (by decide) (by decide) (by decide) _ toLane truth s b
+theorem lanewise_shiftVSx {σ : Type} (sem : ShiftOp → α → Simd.Arg σ α → Option α) (toLane : σ → Option α)
+    (truth : σ → Option Bool) (op : ShiftOp) (a : Vec α S) (s : σ) :
+    LanewiseBinVS (Simd.shiftVSx sem toLane truth op a s) (fun x t => sem op x (.own t)) a s :=
+  binVSx_own loop_BITSHIFT_OP_vs (by decide) (by decide) (by decide) (by decide) _ toLane truth a s
 theorem lanewise_math (sem : MathOp → α → Option α) (op : MathOp) (a : Vec α S) :
     LanewiseUn (Simd.math sem op a) (sem op) a :=
   un_canonical loop_CMATH_UNARY_OP_v (by decide) (by decide) (by decide) _ a
